@@ -97,3 +97,24 @@ hrepeat = Fn(IM + 'hrepeat', ret='r', level='L0',
                     ('Matrix::new(new_vec,', 'before', 'proof { assert forall|ii: int, cc: int, j: int| 0 <= ii < self.nrows && 0 <= cc < n && 0 <= j < self.ncols implies #[trigger] at2(new_vec@, (self.ncols * n) as int, ii, cc * self.ncols + j) == at2(self.data.v@, self.ncols as int, ii, j) by { assert(new_vec@[ii * (self.ncols * n) + cc * self.ncols + j] == at2(self.data.v@, self.ncols as int, ii, j)); } }')])
 UNITS.append(Unit('C15_hrepeat', 'C15', [hrepeat], use=core.core_stubs(), types=core.TYPES, type_spec=core.TYPE_SPEC, spec=c15.SPEC, preludes=PRE, broadcast=BC, level='L0', rlimit=100,
                   notes='hrepeat: n copies of every row side by side (entry (i, c*ncols + j) of the result is entry (i, j) of self)'))
+
+# ---------------------------------------------------------------- in-place row / column maps with a caller-supplied closure
+APPLY_REQ = ['C15.apply_along_row.pre:: wf(*old(self)) && row < old(self).nrows && forall|x: f64| f.requires((x,))']
+APPLY_ENS = ['C15.apply_along_row.shape:: final(self).nrows == old(self).nrows && final(self).ncols == old(self).ncols && wf(*final(self))',
+             'C15.apply_along_row.row:: forall|j: int| 0 <= j < old(self).ncols ==> f.ensures((at2(old(self).data.v@, old(self).ncols as int, row as int, j),), #[trigger] at2(final(self).data.v@, old(self).ncols as int, row as int, j))',
+             'C15.apply_along_row.frame:: forall|r: int, c: int| 0 <= r < old(self).nrows && r != row && 0 <= c < old(self).ncols ==> #[trigger] at2(final(self).data.v@, old(self).ncols as int, r, c) == at2(old(self).data.v@, old(self).ncols as int, r, c)']
+apply_row = Fn(IM + 'apply_along_row', level='L0', requires=APPLY_REQ, ensures=APPLY_ENS,
+               rewrites=[('self[row].iter_mut().for_each(|x| *x = f(*x));', 'for t_ in 0..self.ncols { let v_ = self[[row, t_]]; self[[row, t_]] = f(v_); }',
+                          'R37b: `ROW.iter_mut().for_each(|x| *x = g(*x))` assigns g(element) to every element of the row slice in order; element t of `self[row]` is `self[[row, t]]` (both index contracts denote data[row*ncols + t])')],
+               pre_body='let ghost s0 = *self;',
+               loops={1: {'iter_name': 'tt', 'invariant': ['tt.iter.end == s0.ncols', 'self.nrows == s0.nrows && self.ncols == s0.ncols && wf(*self) && wf(s0)', 'row < s0.nrows', 'forall|x: f64| f.requires((x,))',
+                                        'C15.apply_along_row.done:: forall|j: int| 0 <= j < t_ ==> f.ensures((at2(s0.data.v@, s0.ncols as int, row as int, j),), #[trigger] at2(self.data.v@, s0.ncols as int, row as int, j))',
+                                        'C15.apply_along_row.todo:: forall|r: int, c: int| 0 <= r < s0.nrows && 0 <= c < s0.ncols && (r != row || c >= t_) ==> #[trigger] at2(self.data.v@, s0.ncols as int, r, c) == at2(s0.data.v@, s0.ncols as int, r, c)'],
+                          'body_ghost': 'let ghost pre_d = self.data.v@;',
+                          'body_start': 'lemma_idx(row as int, t_ as int, s0.nrows as int, s0.ncols as int);',
+                          'body_end': ('assert forall|r: int, c: int| 0 <= r < s0.nrows && 0 <= c < s0.ncols && !(r == row && c == t_) implies #[trigger] at2(self.data.v@, s0.ncols as int, r, c) == at2(pre_d, s0.ncols as int, r, c) by '
+                                       '{ lemma_idx(r, c, s0.nrows as int, s0.ncols as int); if r * s0.ncols + c == row * s0.ncols + t_ { lemma_idx_inj(r, c, row as int, t_ as int, s0.ncols as int); } } '
+                                       'assert forall|j: int| 0 <= j < t_ + 1 implies f.ensures((at2(s0.data.v@, s0.ncols as int, row as int, j),), #[trigger] at2(self.data.v@, s0.ncols as int, row as int, j)) by '
+                                       '{ if j < t_ { assert(at2(self.data.v@, s0.ncols as int, row as int, j) == at2(pre_d, s0.ncols as int, row as int, j)); } else { assert(at2(pre_d, s0.ncols as int, row as int, j) == at2(s0.data.v@, s0.ncols as int, row as int, j)); } }')}})
+UNITS.append(Unit('C15_apply_row', ('C15', 'C12'), [apply_row], use=core.core_stubs(), types=core.TYPES, type_spec=core.TYPE_SPEC, spec=c15.SPEC, preludes=PRE, broadcast=BC, level='L0', rlimit=100,
+                  notes='apply_along_row: every element of the chosen row is replaced by the closure applied to it, every other element and the shape are unchanged'))
